@@ -108,6 +108,9 @@ class Prop:
 
 
 def replay_other(pid, art):
+    if pid in ("C13", "C18"):
+        import wmm
+        return wmm.replay(pid, art)
     import smtengine
     return smtengine.replay(pid, art)
 
@@ -335,3 +338,58 @@ p14 = Prop(
 p14.engine = "mir-smt + kani-cbmc"
 p14.technique = "symbolic execution of rustc MIR (check_vouched_time, VouchedTime::check) into SMT-LIB bit-vector queries decided by z3 and cvc5 for all inputs, plus Kani/CBMC harnesses on the public constructor"
 reg(p14)
+
+
+# ---------------------------------------------------------------------------
+# C08 — StreamChunker (one inductive pump step from an arbitrary chunker state, hook H5)
+
+def c08_job(S, block, witness=False, timeout=1500):
+    m = max(block, 2)
+    return Job("stream", "c08::c08_step_s%d_b%d%s" % (S, block, "_witness" if witness else ""),
+               unwind_fns={r"StreamChunker::pump": 3, r"ByteArena::read_n_impl": 6, r"find_stuff_sequence": m + 1},
+               timeout=timeout, mem_gb=14, kind="witness" if witness else "proof",
+               bounds="io_block_size=%d; arbitrary chunker state (carry-over buffer of 0..%d arbitrary bytes, arbitrary offset <= 2^48), remaining stream so that buffer+rest <= %d bytes, reader schedule: 2 symbolic calls (short reads of 1..3 bytes, <=1 interrupted) then full reads; 8-byte arena chunks" % (block, m, S),
+               **ARENA8)
+
+
+reg(Prop(
+    "C08", "StreamChunker tiles the stream",
+    quick=[c08_job(4, 0), c08_job(4, 2), c08_job(5, 3), c08_job(6, 4), c08_job(5, 3, witness=True)],
+    thorough=[c08_job(4, 0), c08_job(4, 1), c08_job(4, 2), c08_job(5, 3), c08_job(5, 3, witness=True), c08_job(6, 4),
+              c08_job(6, 2, timeout=2400), c08_job(6, 3, timeout=2400), c08_job(8, 5, timeout=3000), c08_job(8, 6, timeout=3000)],
+    bounds_quick="one pump step from EVERY chunker state satisfying the carry-over invariant, io_block_size in {0,2,3,4} (concrete per job), logical remaining stream (carry-over + unread) <= 4..6 arbitrary bytes; by induction this covers pump sequences of any length whose per-step window fits the bound",
+    bounds_thorough="io_block_size in {0,1,2,3,4,5,6}, remaining stream <= 4..8 bytes",
+    outside=["block sizes above 6 and the 512 KiB default (the block size is concrete per job: a symbolic size makes the arena allocation size symbolic)",
+             "hard I/O errors (the property quantifies over short reads and interrupted calls)", "more than one interrupted call within one pump",
+             "the induction itself (invariant => next state satisfies invariant) is proved per step by the solver; composing the steps is a pencil argument stated in kani/stream/src/c08.rs"],
+    assumptions=["hook H5 (cfg woodpile_verif): StreamChunker::verif_from_parts / verif_buf / verif_offset construct and observe the chunker state", "hook H2: 8-byte arena chunks"],
+))
+
+
+# ---------------------------------------------------------------------------
+# C13 / C18 — AtomicBaseTime under the Rust memory model (Engine W)
+
+import wmm  # noqa: E402
+
+W_TRUST = ["MIR -> event-structure extractor lib/wmm.py + lib/mir.py", "RC11-style axiomatisation (release/acquire/relaxed atomics without release sequences, coherence CoWW/CoRW/CoWR/CoRR, (sb U rf) acyclic, mutex = lock order + synchronises-with); exact happens-before by Floyd-Warshall",
+           "z3 4.8.12 and cvc5 1.0 must agree on every query"]
+W_ASSUME = ["std::sync::Mutex gives mutual exclusion and release/acquire synchronisation", "CheckingParameters::check is an uninterpreted predicate CHK with CHK(b, v) assumed for the initial pair and for every update's arguments (a bad voucher is a documented panic)",
+            "no lock poisoning except on try_lock's explicitly handled Poisoned arm (explored structurally)", "64-bit sequence counter does not wrap"]
+p13 = Prop("C13", "AtomicBaseTime snapshots never torn / never backwards",
+           quick=[wmm.C13Job("quick")], thorough=[wmm.C13Job("thorough")],
+           bounds_quick="all interleavings AND all reads-from/modification orders allowed by the orderings found in the MIR, for: writer{2 updates}||reader; 2 writers{1 update}||reader; writer{2 updates}||reader{2 snapshots}; thread{update,snapshot}||writer; 2 writers; reader loop unrolled (#sequence stores + 1) times; every thread may also be suspended forever after any event; symbolic 64-bit base times and vouchers",
+           bounds_thorough="as quick plus writer{3 updates}||reader",
+           outside=["more threads / operations than the listed scenarios", "sequence counter wrap-around at 2^64", "SC accesses and fences (the code uses none; the extractor would reject them)"],
+           assumptions=W_ASSUME, trusted=W_TRUST)
+p13.engine = "mir-wmm-smt"
+p13.technique = "bounded weak-memory model checking: thread programs extracted from rustc MIR into guarded event trees, RC11-style axioms in SMT, z3 + cvc5"
+reg(p13)
+p18 = Prop("C18", "readers and try_update never wait",
+           quick=[wmm.C18Job("quick")], thorough=[wmm.C18Job("thorough")],
+           bounds_quick="snapshot's event tree with the loop unrolled 5 times contains only loads (no lock operation on any path); snapshot completes within (#sequence stores+1) iterations with writer{2 updates} suspended at ANY event (symbolic stop point, lock possibly held); try_update against a writer suspended holding the lock returns false, and no path of try_update (incl. the poisoned arm) reaches a blocking Mutex::lock; get_base_time_unlocked calls only snapshot",
+           bounds_thorough="reader loop unrolled 7 times for the structural check",
+           outside=["more than one suspended writer besides the listed scenarios", "fairness/liveness beyond 'completes within the unrolling bound'"],
+           assumptions=W_ASSUME, trusted=W_TRUST)
+p18.engine = "mir-wmm-smt"
+p18.technique = p13.technique
+reg(p18)
